@@ -33,9 +33,8 @@ RULE = ("Part traffic: synthetic CSV traces written directly (1-3 loop ranks; pe
         "trace file), evict-on = root or any outer loop rank, capacity 0..5 lines (+ partial line) or unbounded, "
         "line = 1-4 elements (+ padding bits). Oracle buffet: group the stably merged read/write rows of a "
         "binding by (line, stamp prefix up to the evict-on rank); one fill per group starting with a read, one "
-        "write-back per group containing a write below the rank's shape; overflows from an in-order-drain "
-        "occupancy count. Oracle cache: reference furthest-next-use simulation with bypass, staging lines pinned, "
-        "dirty lines written back on eviction / last use; for read-only cases additionally an exhaustive search "
+        "write-back per group containing a write below the rank's shape. Oracle cache (fills only): reference "
+        "furthest-next-use simulation with bypass, staging lines pinned; for read-only cases additionally an exhaustive search "
         "over all replacement decisions (resident sets, bypass allowed) for the minimum number of fills. Derived "
         "on every case: distinct lines first touched by a read <= fills <= reads; cache fills non-increasing in "
         "capacity, buffet traffic independent of capacity; same result after permuting positions inside a line; "
@@ -61,8 +60,8 @@ ASSUMPTIONS = [
     "lines alone exceed the capacity -- the statement does not define optimality for an over-committed cache",
     "a replacement decision between two lines of ONE binding whose next uses carry the same stamp (read/write "
     "tie) is not determined by the statement -- either choice is furthest-next-use; such cases get bounds only",
-    "overflow counts are compared with the reference occupancy models (in-order drain for the buffet) as part of "
-    "'what the policy implies'; they are reported under their own violation kind",
+    "the overflow counters and the cache model's write-back bits are not part of the statement: they are "
+    "recorded as classes, not compared",
     "kernel part: trace files without a header (a loop that never ran) are not bound; the traces Metrics writes "
     "are taken as input data (their correctness is C16's subject)",
 ]
@@ -549,10 +548,18 @@ def _check_traffic(case, rec):
                                     f"the accessed resident line is not at the head of the next-use queue") from e
                 raise
 
+        def stated(traffic):
+            """the part of a result the statement determines: fills of both models and the buffet's write-backs
+            (neither the cache's write-back accounting nor the overflow counters are part of it)"""
+            if model == "buffet":
+                return traffic
+            return {t: {k: v for k, v in d.items() if k != "write"} for t, d in traffic.items()}
+
         def compare(got, capacity):
             """Exact comparison with the reference at one capacity.  Returns the
             reference info of the accounting that matched."""
-            cands = candidates(capacity)
+            cands = [(stated(t), None, i) for t, o, i in candidates(capacity)]
+            got = (stated(got[0]), None)
             want_t, want_o, info = cands[0]
             if got == (want_t, want_o) and not undecided(info):
                 return info
@@ -587,11 +594,8 @@ def _check_traffic(case, rec):
                                 f"cache: library {got} != reference {(want_t, want_o)} at capacity {capacity}; the "
                                 f"reference flags '{hazards[0]}': the accessed resident line is not at the head of "
                                 f"the next-use queue")
-            if got[0] != want_t:
-                raise Violation(f"{model}-traffic", f"library traffic {got[0]} != reference {want_t} "
-                                f"(capacity {capacity}, line {line})")
-            raise Violation(f"{model}-overflows", f"library overflows {got[1]} != reference {want_o} "
-                            f"(capacity {capacity}, line {line}, traffic {got[0]})")
+            raise Violation(f"{model}-traffic", f"library traffic {got[0]} != reference {want_t} "
+                            f"(capacity {capacity}, line {line})")
 
         got = run("main", cap)
         info = compare(got, cap)
@@ -616,10 +620,11 @@ def _check_traffic(case, rec):
             if "read" in d and not (first_read.get(t, 0) * line <= d["read"] <= nreads.get(t, 0) * line):
                 raise Violation("fill-bounds", f"tensor {t}: fills {d['read']} bits not within "
                                 f"[{first_read.get(t, 0)}, {nreads.get(t, 0)}] lines of {line} bits")
-            if "write" in d and d["write"] > nwrites_wb.get(t, 0) * line:
+            if model == "buffet" and "write" in d and d["write"] > nwrites_wb.get(t, 0) * line:
                 raise Violation("write-bounds", f"tensor {t}: {d['write']} bits written back, only "
                                 f"{nwrites_wb.get(t, 0)} non-staging writes")
-        if set(got[0]) != set(want_t) or any(set(got[0][t]) != set(want_t[t]) for t in want_t):
+        gk, wk = stated(got[0]), stated(want_t)
+        if set(gk) != set(wk) or any(set(gk[t]) != set(wk[t]) for t in wk):
             raise Violation("traffic-keys", f"result keys {got[0]} differ from the traced accesses {want_t}")
         # ---- exhaustive optimum for read-only cache cases
         readonly = not any(b["has_write"] for b in binds)
@@ -638,8 +643,6 @@ def _check_traffic(case, rec):
             if got2[0] != got[0]:
                 raise Violation("buffet-capacity-dependence", f"buffet traffic {got[0]} at capacity {cap} but "
                                 f"{got2[0]} at capacity {cap2}")
-            if hi[1] > lo[1]:
-                raise Violation("buffet-overflows", f"overflows increase with capacity: {lo[1]} -> {hi[1]}")
         else:
             info2 = compare(got2, cap2)
             if not undecided(info) and not undecided(info2):
